@@ -59,14 +59,14 @@ class CallMixin(object):
                     if len(r) <= 8:
                         return [(st, {'static': [mk_int(x) for x in r], 'len': z3.IntVal(len(r)),
                                       'elem': None})]
-                if z3.is_int_value(step) and step.as_long() == 1:
-                    n = z3.If(hi > lo, hi - lo, 0)
-                    return [(st, {'static': None, 'len': n,
-                                  'elem': lambda s, i, lo=lo: SV(INT, lo + i)})]
-                if z3.is_int_value(step) and step.as_long() == -1:
-                    n = z3.If(lo > hi, lo - hi, 0)
-                    return [(st, {'static': None, 'len': n,
-                                  'elem': lambda s, i, lo=lo: SV(INT, lo - i)})]
+                if z3.is_int_value(step) and step.as_long() in (1, -1):
+                    up = step.as_long() == 1
+                    d = (hi - lo) if up else (lo - hi)
+                    n = z3.Int(fresh_name('range_n'))
+                    st = st.assume(n >= 0, z3.Implies(d > 0, n == d), z3.Implies(d <= 0, n == 0))
+                    if up:
+                        return [(st, {'static': None, 'len': n, 'elem': lambda s, i, lo=lo: SV(INT, lo + i)})]
+                    return [(st, {'static': None, 'len': n, 'elem': lambda s, i, lo=lo: SV(INT, lo - i)})]
                 self.oos('range with symbolic step', node)
             if k == 'enumerate':
                 inner = self.iterable(st, sv.py[1], node)
@@ -326,9 +326,18 @@ class CallMixin(object):
             recv = r.val
 
             def k(s2, args, kw, star, recv=recv):
-                if recv.ty == VAL or recv.ty == PY or isinstance(recv.ty, TRef):
+                if recv.ty == PY:
+                    res = []
+                    for r2 in self.get_attr(s2, recv, f.attr, e):
+                        if r2.exc is not None:
+                            res.append(r2)
+                        else:
+                            res += self.run_ghost_at(e, self.apply(r2.st, r2.val, args, kw, e, star), args, kw)
+                    return res
+                if recv.ty == VAL or isinstance(recv.ty, TRef):
                     # reference semantics: no write-back
-                    return self.apply(s2, mk_py(('bound', recv, f.attr)), args, kw, e, star)
+                    return self.run_ghost_at(e, self.apply(s2, mk_py(('bound', recv, f.attr)), args, kw, e, star),
+                                             args, kw)
                 res = self.container_mutate(s2, recv, f.attr, args, kw, e)
                 out2 = []
                 for s3, newc, ret, exc in res:
@@ -655,7 +664,7 @@ class CallMixin(object):
 
     def bytes_method(self, st, s, name, args, kw, node):
         if name == 'decode':
-            f = ufun('bytes_decode', S, S)
+            f = ufun('u_bytes_decode', S, S)
             return self.ok(st, SV(STR, f(s.z)))
         if name == 'strip':
             f = ufun('bytes_strip', S, S)
@@ -1075,6 +1084,12 @@ class CallMixin(object):
         if isinstance(a.ty, TDict):
             return self.ok(st, a)
         self.oos('dict(%r)' % (a.ty,), node)
+
+    def bi_open(self, st, args, kw, node):
+        c = self.spec.contracts.get('builtins:open')
+        if c is None:
+            self.oos('open() without a trusted contract', node)
+        return self.call_contract(st, c, args, kw, node)
 
     def bi_print(self, st, args, kw, node):
         return self.ok(st, mk_none())
